@@ -43,7 +43,10 @@ func NewPattern(components ...any) Pattern {
 			}
 			comps[len(comps)-1].Literal += string(v)
 		case Wildcard:
-			if len(comps) == 0 || comps[len(comps)-1].Literal != "" {
+			if n := len(comps); n == 1 && !comps[0].Wildcard && comps[0].Literal == "" {
+				// an empty leading literal followed by a wildcard is the wildcard (not a second wildcard to collapse)
+				comps[0].Wildcard = true
+			} else if n == 0 || comps[n-1].Literal != "" {
 				comps = append(comps, patternComponent{Wildcard: true, Literal: ""})
 			}
 		default:
